@@ -753,6 +753,11 @@ fn main() {
         }
     };
     let root = std::fs::canonicalize(&root).unwrap();
+    // the system temporary directory of this process lives under the scenario root, so that anything the library
+    // puts there is visible in the final tree (and to the shim)
+    let systmp = root.join("systmp");
+    let _ = std::fs::create_dir_all(&systmp);
+    std::env::set_var("TMPDIR", &systmp);
     // watchdog: a hang is an observation, not a stuck check
     let limit = scenario.get("watchdog_s").and_then(|x| x.as_u64()).unwrap_or(60);
     std::thread::spawn(move || {
